@@ -457,14 +457,13 @@ func (a *asset) generateTimelineEntries(repID string, wt wrapTimes, atoMS int) s
 		mediaTimescale: uint32(rep.MediaTimescale),
 	}
 
-	ato := uint64(atoMS * rep.MediaTimescale / 1000)
-
 	loopDur := uint64(rep.duration())
 	// The availabilityTimeOffset may reach into the next loop(s) of the asset
-	relStartTime := uint64(wt.startRelMS*rep.MediaTimescale/1000) + ato
-	for loopDur > 0 && relStartTime >= loopDur {
-		relStartTime -= loopDur
-		wt.startWraps++
+	// Add the offset in milliseconds before converting, so that "finished" is decided exactly
+	relStartTime := uint64((wt.startRelMS + atoMS) * rep.MediaTimescale / 1000)
+	if loopDur > 0 && relStartTime >= loopDur {
+		wt.startWraps += int(relStartTime / loopDur)
+		relStartTime %= loopDur
 	}
 	relStartIdx := 0
 	if relStartTime < segs[0].EndTime {
@@ -482,10 +481,10 @@ func (a *asset) generateTimelineEntries(repID string, wt wrapTimes, atoMS int) s
 		wt.startWraps = 0
 	}
 
-	relNowTime := uint64(wt.nowRelMS*rep.MediaTimescale/1000) + ato
-	for loopDur > 0 && relNowTime >= loopDur {
-		relNowTime -= loopDur
-		wt.nowWraps++
+	relNowTime := uint64((wt.nowRelMS + atoMS) * rep.MediaTimescale / 1000)
+	if loopDur > 0 && relNowTime >= loopDur {
+		wt.nowWraps += int(relNowTime / loopDur)
+		relNowTime %= loopDur
 	}
 	relNowIdx := 0
 	if relNowTime < segs[0].EndTime {
